@@ -27,6 +27,8 @@ pub struct Scope {
     /// weak pointers to leaf objects
     pub weakleaf: bool,
     pub fin: bool,
+    /// only FinQuery(0), FinRes, FinResChild of the finalization operations
+    pub fin_min: bool,
     pub faults: bool,
     pub pcallbacks: bool,
     /// number of DynamicRootSets in the root (0..=2) and handle slots
@@ -72,6 +74,7 @@ pub const BASE: Scope = Scope {
     leaf: false,
     weakleaf: false,
     fin: false,
+    fin_min: false,
     faults: false,
     pcallbacks: false,
     sets: 0,
@@ -89,6 +92,11 @@ pub fn scope(name: &str) -> Option<Scope> {
         "S2" => Scope { name: "S2", classes: 0b101, maproot: true, ..BASE },
         // 2 objects + finalization, non-wrapping collector ops
         "S2f" => Scope { name: "S2f", fin: true, wrap: false, ..BASE },
+        "S3fr" => Scope { name: "S3fr", n: 3, r: 1, k: 1, fin: true, wrap: false, copyroot: false, upgrade_ops: false, ..BASE },
+        "S3fq" => Scope { name: "S3fq", n: 3, r: 1, k: 1, fin: true, fin_min: true, wrap: false, copyroot: false, upgrade_ops: false, classes: 0, ..BASE },
+        "S3fq9" => Scope { name: "S3fq9", n: 3, r: 1, k: 1, fin: true, fin_min: true, wrap: false, copyroot: false, upgrade_ops: false, classes: 0, max_depth: 9, ..BASE },
+        "S2bf" => Scope { name: "S2bf", n: 2, r: 1, k: 1, fin: true, wrap: false, copyroot: false, barrier: true, ..BASE },
+        "S2fm" => Scope { name: "S2fm", n: 2, r: 1, k: 1, fin: true, wrap: false, copyroot: false, maproot: true, ..BASE },
         "S2f1" => Scope { name: "S2f1", fin: true, wrap: false, r: 1, k: 1, ..BASE },
         // chains of 3 / 4 objects, one root slot, one strong slot, no weak
         "S3c" => Scope { name: "S3c", n: 3, r: 1, k: 1, weak: false, upgrade_ops: false, ..BASE },
@@ -140,7 +148,8 @@ pub fn owners(oracle: &str) -> &'static [&'static str] {
     let head = oracle.split('.').next().unwrap_or("");
     match head {
         // a strongly reachable value destructed / released / unreadable
-        "safe" => &["C01", "C05", "C06", "C07", "C11", "C14", "C20"],
+        // (C08: "sweeping begins only from a fully marked arena" - its observable consequence is exactly this)
+        "safe" => &["C01", "C05", "C06", "C07", "C08", "C11", "C14", "C20"],
         "once" => &["C04", "C11", "C20"],
         "alloc" => &["C04", "C11", "C20"],
         "api" => &["C01", "C02", "C03", "C04", "C05", "C06", "C07", "C08", "C10", "C11", "C14", "C20"],
